@@ -21,6 +21,8 @@ pub fn solver_arm_opts(arm: &str) -> Option<ArmOpts> {
         "par-cache" => ArmOpts { parallel: true, force_cache: Some(true), reconverge: true, knapsack_quarters: 2, ..d },
         "seq-dom" => ArmOpts { force_dom: Some(true), ..d },
         "par-dom" => ArmOpts { parallel: true, force_dom: Some(true), ..d },
+        "seq-primal-cache" => ArmOpts { primal: true, force_cache: Some(true), reconverge: true, knapsack_quarters: 2, ..d },
+        "par-primal-cache" => ArmOpts { parallel: true, primal: true, force_cache: Some(true), reconverge: true, knapsack_quarters: 2, ..d },
         "seq-primal" => ArmOpts { primal: true, ..d },
         "par-primal" => ArmOpts { parallel: true, primal: true, ..d },
         "seq-longarc" => ArmOpts { long_arcs: true, force_pooled: true, ..d },
